@@ -447,7 +447,7 @@ func c09Interest(base int) []uint64 {
 func c09EnumFor(e explore.Env, deep bool, base int) *c09Enum {
 	en := &c09Enum{Cap: 1500, RedCap: 500, MaxDev: 3, Interest: c09Interest(base)}
 	if e.Thorough() {
-		en = &c09Enum{Cap: 20000, RedCap: 6000, MaxDev: 3, Interest: c09Interest(base)}
+		en = &c09Enum{Cap: 5000, RedCap: 2000, MaxDev: 3, Interest: c09Interest(base)}
 	}
 	if deep {
 		en.Cap = 1_000_000
